@@ -55,13 +55,26 @@ def poll_rules(prog, rep, tag):
         okw = okw and has_root(r, "const", 1)
         # on the path: timer re-armed, polled, Sendable stored, sender woken; all dominate the decrement and lie on retries_left != 0 edge
         arm = [x for x in q.field_accesses(b, "ReceiveFrameFut", "timeout_timer") if x[2] == "write"]
-        st = [c for c in b.calls_to("FrameBox::set_state") if slotfsm._state_of(pr.of_operand(c.args[1])) == ["Sendable"]]
+        # re-queue: compare-exchange Sent -> Sendable (a response that is arriving or has arrived is not overwritten)
+        st = [c for c in b.calls_to("FrameBox::swap_state") if slotfsm._state_of(pr.of_operand(c.args[1])) == ["Sent"] and slotfsm._state_of(pr.of_operand(c.args[2])) == ["Sendable"]]
+        plain = [c for c in b.calls_to("FrameBox::set_state") if slotfsm._state_of(pr.of_operand(c.args[1])) == ["Sendable"]]
         wk = b.calls_to("PduLoop::wake_sender")
         tp2 = [t for t in tp if arm and t.bb in b.reachable_strict(arm[0][0])]
-        parts = {"rearm": bool(arm), "poll-once": bool(tp2), "store-Sendable": len(st) == 1, "wake": len(wk) == 1}
+        parts = {"rearm": bool(arm), "poll-once": bool(tp2), "requeue-by-cas-from-Sent": len(st) == 1 and not plain, "wake": len(wk) == 1}
         if all(parts.values()):
-            seq = [arm[0][0], tp2[0].bb, st[0].bb, wk[0].bb, bi]
+            seq = [arm[0][0], tp2[0].bb, st[0].bb, bi]
             inorder = all(b.dominates(seq[i], seq[i + 1]) for i in range(len(seq) - 1))
+            # the sender is woken only where the re-queue took place, and the retry is consumed either way
+            okw_edge = False
+            pf = Prov(b, follow_all={"Result::is_ok", "Result::is_err"})
+            for cd in q.conds(b):
+                opnd = pf.of_operand(cd.t["d"]) if cd.kind != "discr" else pf.of_operand({"copy": cd.place})
+                if any(x[0] == "call" and x[1] == "FrameBox::swap_state" and x[2] == st[0].bb for x in opnd):
+                    neg = any(x[0] == "via" and x[1].endswith("is_err") for x in opnd)
+                    tgt = cd.variant_targets(prog).get("Ok") if cd.kind == "discr" else (cd.false_target() if neg else cd.true_target())
+                    if tgt is not None and wk[0].bb in q.edge_dominated(b, cd.bb, tgt):
+                        okw_edge = True
+            parts["wake-only-if-requeued"] = okw_edge
             parts["in-order"] = inorder
             # new timer made from the stored timeout
             ra = b.stmts(arm[0][0])[arm[0][1]]
@@ -69,7 +82,7 @@ def poll_rules(prog, rep, tag):
             parts["timer-from-timeout"] = has_root(rr, "call", "timer_factory::timer")
         d = str(parts)
         okw = okw and all(parts.values())
-    rep.ob(P, "retry-bookkeeping" + tag, okw, "the retry path re-arms the timer from self.timeout, polls it once, stores Sendable, wakes the sender and then decrements retries_left by exactly one; " + d, loc=b.span)
+    rep.ob(P, "retry-bookkeeping" + tag, okw, "the retry path re-arms the timer from self.timeout, polls it once, re-queues the frame by compare-exchange Sent -> Sendable (waking the sender only then) and decrements retries_left by exactly one; " + d, loc=b.span)
     # retries_left writers across the crate: constructor + that decrement
     n = 0
     for x in prog.bodies:
